@@ -145,6 +145,9 @@ class Serializer:
         attrs_txt, attrs_dom = [], []
         for k in sorted(x.attributes):
             v = sanitize(x.attributes[k])
+            if v.startswith("@NS:"):
+                # an attribute whose VALUE names a namespace (a:graphicData/@uri): written with the URI of the namespace set in use
+                v = sp.uri(v[4:])
             ap, al = split(k)
             if ap is None:
                 attrs_txt.append(" %s=%s" % (al, self.attr_value(v)))
